@@ -18,12 +18,12 @@ structure EscrowInv (s : State) : Prop where
 /-- One step: every message of the module (signed by anyone but the module account itself, which
 has no key) preserves "module balance = Σ open bids", for every denomination. -/
 theorem C09_step_preserves_escrow (s s' : State) (h : Int) (op : Op)
-    (hinv : EscrowInv s) (hc : op.creator ≠ s.moduleAcc) (hstep : step s h op = some s') :
+    (hinv : EscrowInv s) (hc : acct s op.creator ≠ some s.moduleAcc) (hstep : step s h op = some s') :
     EscrowInv s' := by
   obtain ⟨wf, mb, pn, esc⟩ := hinv
-  unfold step at hstep
-  split at hstep
-  case isFalse => simp at hstep
+  obtain ⟨cc, -, hcc, hstep⟩ := step_some hstep
+  have hcm : cc ≠ s.moduleAcc := by
+    intro e; apply hc; rw [hcc, e]
   cases op with
   | register c raw n dta y p =>
     simp only [handle, register, bind, Option.bind_eq_some_iff, req_eq_some] at hstep
@@ -38,8 +38,7 @@ theorem C09_step_preserves_escrow (s s' : State) (h : Int) (op : Op)
     rw [e5, e2]
     have h2 := sendFromModule_bal hb2 s.moduleAcc d
     have h1 := bal_send hb1 s.moduleAcc d
-    simp only [Op.creator] at hc
-    simp only [pn, hc, if_false, if_true] at h1 h2
+    simp only [pn, hcm, if_false, if_true] at h1 h2
     simp only [escrowed, e1]
     rw [h2, h1, esc d]; simp [escrowed]
   | list c raw n pr p =>
@@ -54,15 +53,14 @@ theorem C09_step_preserves_escrow (s s' : State) (h : Int) (op : Op)
     exact ⟨wf, mb, pn, esc⟩
   | buy c raw n =>
     simp only [handle, buy, bind, Option.bind_eq_some_iff, req_eq_some] at hstep
-    obtain ⟨sale, -, ⟨nm, tld⟩, -, w, -, _, -, _, -, _, -, pr, -, coins, -, b1, hb1, b2, hb2, hs⟩ := hstep
+    obtain ⟨sale, -, ⟨nm, tld⟩, -, w, -, _, -, _, -, _, -, seller, hseller, pr, -, coins, -, b1, hb1, b2, hb2, hs⟩ := hstep
     simp only [Option.some.injEq] at hs; subst hs
     refine ⟨wf, mb, pn, ?_⟩
     intro d
     have h2 := sendFromModule_bal hb2 s.moduleAcc d
     have hne := sendFromModule_ne hb2 mb
     have h1 := bal_send hb1 s.moduleAcc d
-    simp only [Op.creator] at hc
-    simp only [hne, hc, if_false, if_true] at h1 h2
+    simp only [hne, hcm, if_false, if_true] at h1 h2
     show bal b2 s.moduleAcc d = escrowed d s
     rw [h2, h1, esc d]; omega
   | bid c raw n pr p =>
@@ -71,19 +69,18 @@ theorem C09_step_preserves_escrow (s s' : State) (h : Int) (op : Op)
     simp only [Option.some.injEq] at hs; subst hs
     refine ⟨AMap.wf_set _ _ wf, mb, pn, ?_⟩
     intro d
-    simp only [Op.creator] at hc
     have h1 := bal_send hb1 s.moduleAcc d
-    simp only [hc, if_false, if_true] at h1
-    show bal b1 s.moduleAcc d = AMap.sumBy (bidAmt d) (AMap.set s.bids (c ++ n) _)
+    simp only [hcm, if_false, if_true] at h1
+    show bal b1 s.moduleAcc d = AMap.sumBy (bidAmt d) (AMap.set s.bids (cc ++ n) _)
     rw [AMap.sumBy_set _ _ _ wf, h1]
     unfold refundOld at hb0
-    cases hg : AMap.get s.bids (c ++ n) with
+    cases hg : AMap.get s.bids (cc ++ n) with
     | none =>
       simp only [hg, Option.some.injEq] at hb0; subst hb0
       simp [bidAmt, hp, esc d, escrowed]
     | some old =>
       simp only [hg, Option.bind_eq_some_iff] at hb0
-      obtain ⟨oc, hoc, hsend⟩ := hb0
+      obtain ⟨ob, hob, oc, hoc, hsend⟩ := hb0
       have h0 := sendFromModule_bal hsend s.moduleAcc d
       have hne := sendFromModule_ne hsend mb
       simp only [hne, if_false, if_true] at h0
@@ -150,9 +147,11 @@ namespace Canine.Rns
 open Bank
 
 /-- Every history: from any state satisfying the invariant, after any sequence of messages
-(failed ones change nothing), the module account still holds exactly the open bids. -/
+(failed ones change nothing), the module account still holds exactly the open bids.  The module
+account itself never signs (it has no key). -/
 theorem C09_escrow_conserved_along_histories (ops : List (Int × Op)) :
-    ∀ (s : State), EscrowInv s → (∀ p ∈ ops, p.2.creator ≠ s.moduleAcc) → EscrowInv (run s ops) := by
+    ∀ (s : State), EscrowInv s → (∀ p ∈ ops, acct s p.2.creator ≠ some s.moduleAcc) →
+      EscrowInv (run s ops) := by
   induction ops with
   | nil => intro s hinv _; exact hinv
   | cons p rest ih =>
@@ -168,7 +167,8 @@ theorem C09_escrow_conserved_along_histories (ops : List (Int × Op)) :
         simp only [Option.getD_some]
         exact C09_step_preserves_escrow s s' h op hinv (hc (h, op) (by simp)) hs
     · intro p hp
-      rw [hcfg.1]
+      unfold acct
+      rw [hcfg.1, hcfg.2.2.2]
       exact hc p (List.mem_cons_of_mem _ hp)
 
 /-- The empty module state (genesis without bids, module account empty) satisfies the invariant. -/
@@ -176,91 +176,87 @@ theorem C09_genesis (s : State) (hb : s.bids = []) (hm : s.moduleAcc ∈ s.block
     (hp : s.polAcc ≠ s.moduleAcc) (h0 : ∀ d, bal s.bank s.moduleAcc d = 0) : EscrowInv s :=
   ⟨by rw [hb]; simp [AMap.WF, AMap.keys], hm, hp, by intro d; rw [h0 d]; simp [escrowed, hb, AMap.sumBy]⟩
 
-/-- Cancelling returns to the bidder exactly what the bid holds and removes the bid. -/
+/-- Cancelling returns to the signer's account exactly what the bid (stored under the signer's
+address string as sent) holds, and removes the bid. -/
 theorem C09_cancel_refunds_exactly (s s' : State) (h : Int) (c raw n : String)
     (hm : s.moduleAcc ∈ s.blocked) (hstep : step s h (.cancelBid c raw n) = some s') :
-    ∃ b, AMap.get s.bids (c ++ n) = some b ∧ AMap.get s'.bids (c ++ n) = none ∧
-      ∀ d, bal s'.bank c d = bal s.bank c d + bidAmt d b := by
-  unfold step at hstep
-  split at hstep
-  case isFalse => simp at hstep
+    ∃ cc b, acct s c = some cc ∧ AMap.get s.bids (c ++ n) = some b ∧ AMap.get s'.bids (c ++ n) = none ∧
+      ∀ d, bal s'.bank cc d = bal s.bank cc d + bidAmt d b := by
+  obtain ⟨cc, -, hcc, hstep⟩ := step_some hstep
   simp only [handle, cancelBid, bind, Option.bind_eq_some_iff] at hstep
   obtain ⟨b, hb, coins, hcoins, b1, hb1, hs⟩ := hstep
   simp only [Option.some.injEq] at hs; subst hs
-  refine ⟨b, hb, by simp, ?_⟩
+  refine ⟨cc, b, hcc, hb, by simp, ?_⟩
   intro d
-  have h1 := sendFromModule_bal hb1 c d
+  have h1 := sendFromModule_bal hb1 cc d
   have hne := sendFromModule_ne hb1 hm
-  have hne' : ¬ s.moduleAcc = c := fun e => hne e.symm
+  have hne' : ¬ s.moduleAcc = cc := fun e => hne e.symm
   simp only [hne', if_false, if_true] at h1
-  show bal b1 c d = _
+  show bal b1 cc d = _
   rw [h1]; simp [bidAmt, hcoins]
 
-/-- Accepting pays the (signing) owner exactly what the bid holds and removes the bid. -/
+/-- Accepting pays the (signing) owner's account exactly what the bid holds and removes the bid. -/
 theorem C09_accept_pays_owner_exactly (s s' : State) (h : Int) (c raw n bidder : String)
     (hm : s.moduleAcc ∈ s.blocked) (hstep : step s h (.acceptBid c raw n bidder) = some s') :
-    ∃ b, AMap.get s.bids (bidder ++ n) = some b ∧ AMap.get s'.bids (bidder ++ n) = none ∧
-      ∀ d, bal s'.bank c d = bal s.bank c d + bidAmt d b := by
-  unfold step at hstep
-  split at hstep
-  case isFalse => simp at hstep
+    ∃ cc b, acct s c = some cc ∧ AMap.get s.bids (bidder ++ n) = some b ∧
+      AMap.get s'.bids (bidder ++ n) = none ∧
+      ∀ d, bal s'.bank cc d = bal s.bank cc d + bidAmt d b := by
+  obtain ⟨cc, -, hcc, hstep⟩ := step_some hstep
   simp only [handle, acceptBid, bind, Option.bind_eq_some_iff, req_eq_some] at hstep
   obtain ⟨⟨nm, tld⟩, -, w, -, _, -, _, -, _, -, b, hb, coins, hcoins, b1, hb1, hs⟩ := hstep
   simp only [Option.some.injEq] at hs; subst hs
-  refine ⟨b, hb, by simp, ?_⟩
+  refine ⟨cc, b, hcc, hb, by simp, ?_⟩
   intro d
-  have h1 := sendFromModule_bal hb1 c d
+  have h1 := sendFromModule_bal hb1 cc d
   have hne := sendFromModule_ne hb1 hm
-  have hne' : ¬ s.moduleAcc = c := fun e => hne e.symm
+  have hne' : ¬ s.moduleAcc = cc := fun e => hne e.symm
   simp only [hne', if_false, if_true] at h1
-  show bal b1 c d = _
+  show bal b1 cc d = _
   rw [h1]; simp [bidAmt, hcoins]
 
 /-- A repeated bid by the same account on the same name: the bidder's balance moves by exactly
 (old escrow − new escrow), i.e. the replaced bid is refunded in full. -/
 theorem C09_rebid_refunds_previous (s s' : State) (h : Int) (c raw n pr : String) (p : Option Coins)
-    (old : BidRec) (hold : AMap.get s.bids (c ++ n) = some old) (hob : old.bidder = c)
+    (cc : String) (hcc : acct s c = some cc)
+    (old : BidRec) (hold : AMap.get s.bids (cc ++ n) = some old) (hob : acct s old.bidder = some cc)
     (hm : s.moduleAcc ∈ s.blocked) (hstep : step s h (.bid c raw n pr p) = some s') :
-    ∀ d, bal s'.bank c d = bal s.bank c d + bidAmt d old - amt d (p.getD []) := by
-  unfold step at hstep
-  split at hstep
-  case isFalse => simp at hstep
+    ∀ d, bal s'.bank cc d = bal s.bank cc d + bidAmt d old - amt d (p.getD []) := by
+  obtain ⟨cc', -, hcc', hstep⟩ := step_some hstep
+  simp only [Op.creator] at hcc'
+  rw [hcc] at hcc'; cases hcc'
   simp only [handle, bid, bind, Option.bind_eq_some_iff] at hstep
   obtain ⟨coins, hp, b0, hb0, b1, hb1, hs⟩ := hstep
   simp only [Option.some.injEq] at hs; subst hs
   intro d
   unfold refundOld at hb0
-  simp only [hold, Option.bind_eq_some_iff] at hb0
+  simp only [hold, hob, Option.bind_some, Option.bind_eq_some_iff] at hb0
   obtain ⟨oc, hoc, hsend⟩ := hb0
-  rw [hob] at hsend
-  have h0 := sendFromModule_bal hsend c d
+  have h0 := sendFromModule_bal hsend cc d
   have hne := sendFromModule_ne hsend hm
-  have hne' : ¬ s.moduleAcc = c := fun e => hne e.symm
-  have h1 := bal_send hb1 c d
+  have hne' : ¬ s.moduleAcc = cc := fun e => hne e.symm
+  have h1 := bal_send hb1 cc d
   simp only [hne', if_false, if_true] at h0 h1
-  show bal b1 c d = _
+  show bal b1 cc d = _
   rw [h1, h0]; simp [bidAmt, hoc, hp]
 
 /-- Registration and purchase move tokens through the module account without leaving anything
 in it (special case of the invariant, stated on its own as the property does). -/
 theorem C09_register_and_buy_leave_no_residue (s s' : State) (h : Int) (op : Op)
-    (hinv : EscrowInv s) (hc : op.creator ≠ s.moduleAcc) (hstep : step s h op = some s')
+    (hinv : EscrowInv s) (hc : acct s op.creator ≠ some s.moduleAcc) (hstep : step s h op = some s')
     (hop : (∃ c r n d y p, op = .register c r n d y p) ∨ (∃ c r n, op = .buy c r n)) :
     ∀ d, bal s'.bank s'.moduleAcc d = bal s.bank s.moduleAcc d := by
   intro d
   have hinv' := C09_step_preserves_escrow s s' h op hinv hc hstep
   rw [hinv'.escrow d, hinv.escrow d]
   have hb : s'.bids = s.bids := by
-    unfold step at hstep
-    split at hstep
-    case isFalse => simp at hstep
+    obtain ⟨cc, -, hcc, hstep⟩ := step_some hstep
     rcases hop with ⟨c, r, n, dd, y, p, rfl⟩ | ⟨c, r, n, rfl⟩
     · simp only [handle, register, bind, Option.bind_eq_some_iff, req_eq_some] at hstep
       obtain ⟨⟨nm, tld⟩, -, cost, -, _, -, ex, -, b1, hb1, b2, hb2, hs⟩ := hstep
       simp only [Option.some.injEq] at hs
       subst hs; unfold setPrimaryIf; split <;> simp
     · simp only [handle, buy, bind, Option.bind_eq_some_iff, req_eq_some] at hstep
-      obtain ⟨sale, -, ⟨nm, tld⟩, -, w, -, _, -, _, -, _, -, pr, -, coins, -, b1, hb1, b2, hb2, hs⟩ := hstep
+      obtain ⟨sale, -, ⟨nm, tld⟩, -, w, -, _, -, _, -, _, -, seller, hseller, pr, -, coins, -, b1, hb1, b2, hb2, hs⟩ := hstep
       simp only [Option.some.injEq] at hs; subst hs; simp
   simp [escrowed, hb]
 
@@ -270,7 +266,8 @@ def exState : State :=
   { names := [], forsale := [], inits := [], primary := [],
     bids := [("alice" ++ "foo.jkl", { index := "alicefoo.jkl", name := "foo.jkl", bidder := "alice", priceRaw := "500ujkl", price := some [("ujkl", 500)] })],
     bank := [(("alice", "ujkl"), 1000), (("rnsmod", "ujkl"), 500)],
-    blocked := ["rnsmod"], moduleAcc := "rnsmod", polAcc := "pol" }
+    blocked := ["rnsmod"], moduleAcc := "rnsmod", polAcc := "pol",
+    canon := [("alice", "alice"), ("ALICE", "alice")] }
 
 example : EscrowInv exState := by
   refine ⟨by simp [AMap.WF, AMap.keys, exState], by decide, by decide, ?_⟩
